@@ -26,18 +26,20 @@ package main
 //@   ensures result == nil || result == context.Canceled || result == context.DeadlineExceeded
 //@ iface Volume.Put
 //@   modifies nothing
-//@ func RRVolumeManager.AllReadable trusted
+//@ func RRVolumeManager.AllReadable property C01,C06
 //@   modifies nothing
-//@ func RRVolumeManager.AllWritable trusted
+//@   ensures result == vm.readables
+//@ func RRVolumeManager.AllWritable property C01,C04
 //@   modifies nothing
+//@   ensures result == vm.writables
 //@ func RRVolumeManager.NextWritable trusted
 //@   modifies RRVolumeManager.counter
 //@ pure ctxlog.FromContext
-//@ func contextForResponse trusted
+//@ func contextForResponse property C01
 //@   modifies nothing
 //@ func getBufferWithContext trusted
 //@   modifies nothing
-//@ func bufferPool.Put trusted
+//@ func bufferPool.Put property C01
 //@   modifies nothing
 
 // --------------------------------------------------------------------- C01
@@ -129,10 +131,12 @@ package main
 // ---------------------------------------------------- C06: index completeness
 // The terminating blank line is written only after every selected volume
 // indexed without error.
-//@ func router.isSystemAuth trusted
+//@ func router.isSystemAuth property C04,C06
 //@   modifies nothing
-//@ func RRVolumeManager.Lookup trusted
+//@   ensures result == (token != "" && token == rtr.cluster.SystemRootToken)
+//@ func RRVolumeManager.Lookup property C04,C05
 //@   modifies nothing
+//@   ensures result != nil ==> has(vm.mountMap, uuid) && result == vm.mountMap[uuid] && (needWrite ==> !result.KeepMount.ReadOnly)
 //@ iface Volume.IndexTo
 //@   modifies ghost:written
 //@ func router.handleIndex property C06
@@ -331,8 +335,9 @@ package main
 
 // handleDELETE: blocks are trashed only for a token allowed to delete, only
 // with trashing enabled, and only on writable volumes.
-//@ func router.canDelete trusted pure
+//@ func router.canDelete property C04 pure
 //@   modifies nothing
+//@   ensures result ==> apiToken != "" && apiToken == rtr.cluster.SystemRootToken
 //@ func router.handleDELETE property C04 safety -bounds
 //@   ghost allowed bool = false
 //@   ghost writable bool = false
@@ -396,7 +401,7 @@ package main
 // error; Mtime reports the modification time of the block's own file.
 //@ iface FileInfo.Size pure
 //@   modifies nothing
-//@ func UnixVolume.blockPath trusted pure
+//@ func UnixVolume.blockPath property C01,C02,C04 pure
 //@   modifies nothing
 //@ func UnixVolume.Get property C01,C02
 //@   calls getWithPipe#1: requires $1 == loc && $2 == buf && $3 == iface(v)
